@@ -79,6 +79,29 @@ def gen_cases(tier, seed):
                         ops.append({"op": "bits_get", "bits": bits, "spelling": sp, "name": f"field{lo}_{hi}"})
                         ops.append({"op": "bits_set", "bits": bits, "spelling": sp, "name": f"field{lo}_{hi}", "val": rng.randrange(1 << n)})
                 cases.append({"kind": kind, "t": t, "fn": 1, "fd": 1, "descs": [], "bitdefs": bitdefs, "ops": ops})
+    # bit fields of signed variables (raw values of both signs, fields with and without the sign bit)
+    for kind in ("sdo", "pdo"):
+        for w, t in {8: 0x2, 16: 0x3, 32: 0x4}.items():
+            ranges = [(lo, hi) for lo in range(w) for hi in range(lo, w)]
+            ranges = rng.sample(ranges, 36 if tier == "quick" else min(len(ranges), 300)) + [(w - 1, w - 1), (0, w - 1), (0, 0)]
+            for i in range(0, len(ranges), 13):
+                chunk = ranges[i:i + 13]
+                bitdefs = [[f"field{lo}_{hi}", list(range(lo, hi + 1))] for lo, hi in chunk]
+                ops = []
+                for lo, hi in chunk:
+                    n = hi - lo + 1
+                    bits = list(range(lo, hi + 1))
+                    spell = ["list", "slice", "slice_step", "name"] + (["int"] if n == 1 else [])
+                    for raw in (-1, -(1 << (w - 1)), (1 << (w - 1)) - 1, 0, rng.randrange(-(1 << (w - 1)), 0),
+                                rng.randrange(0, 1 << (w - 1))):
+                        ops.append({"op": "setraw", "v": raw})
+                        for val in sorted({0, 1, (1 << n) - 1, rng.randrange(1 << n)}):
+                            ops.append({"op": "bits_set", "bits": bits, "spelling": rng.choice(spell),
+                                        "name": f"field{lo}_{hi}", "val": val})
+                            ops.append({"op": "bits_get", "bits": bits, "spelling": rng.choice(spell),
+                                        "name": f"field{lo}_{hi}"})
+                cases.append({"kind": kind, "t": t, "fn": 1, "fd": 1, "descs": [], "bitdefs": bitdefs, "ops": ops,
+                              "image": True})
     return cases
 
 
@@ -112,7 +135,7 @@ def main():
     return v.finish("model_checking", cov, [
         "physical values are small rationals k*f + delta*f with |delta| <= 0.4 (away from rounding ties); raw values within +-2000 so that all products stay below 2^31 in TLC",
         "the physical value read back is compared with raw*factor up to 1/(den*1000)",
-        "bit fields on unsigned 8/16/32-bit variables"])
+        "bit fields on unsigned and signed 8/16/32-bit variables (signed raw values judged on their two's-complement image)"])
 
 
 if __name__ == "__main__":
